@@ -474,6 +474,11 @@ fn do_call(call: &Value) -> Value {
             match r {
                 Ok((t, d)) => {
                     let txt = t.text().to_string();
+                    SAVED.with(|s| {
+                        if let Some(l) = s.borrow_mut().last_mut() {
+                            *l = (Some(d.clone()), Some(txt.clone()));
+                        }
+                    });
                     if get_bool(call, "want_origins") {
                         out.insert("origins".into(), origins_to_json(&t));
                     }
